@@ -486,6 +486,30 @@ func (r *Rec) Close(t *testing.T) {
 	}
 }
 
+// LoadFindings returns a recorder that only knows the committed findings of a property (used by fuzz targets, which have
+// no evidence to write themselves).
+func LoadFindings(id string) *Rec {
+	r := &Rec{ID: id, knownHit: map[string]int64{}}
+	fp := os.Getenv("VERIF_FINDINGS")
+	if fp == "" {
+		fp = filepath.Join(verifDir(), "known_findings.json")
+	}
+	if b, err := os.ReadFile(fp); err == nil {
+		var all struct {
+			Findings []*Finding `json:"findings"`
+		}
+		if json.Unmarshal(b, &all) == nil {
+			for _, f := range all.Findings {
+				if f.Property == id {
+					f.re = globRe(f.Key)
+					r.findings = append(r.findings, f)
+				}
+			}
+		}
+	}
+	return r
+}
+
 // ---- guards ----
 
 // PanicInfo describes a recovered panic.
